@@ -36,9 +36,25 @@ def _mk(costs, r=None):
     return out
 
 
-def _selector():
-    from artap.operators import TournamentSelector
-    return TournamentSelector([{"name": "x", "bounds": [0, 1]}])
+def _selector(ctx=None, key=None):
+    """the sorter is a method of every selector; the tournament options of a selector (its comparator class and epsilons) configure
+    the tournament, never the ranks"""
+    from artap import operators as ops
+    prm = [{"name": "x", "bounds": [0, 1]}]
+    if ctx is None:
+        return ops.TournamentSelector(prm)
+    r = ctx.rng("selector_ctor", key)
+    how = r.choice(["tournament", "tournament", "tournament_eps_comparator", "tournament_eps_kw", "dummy", "copy"])
+    ctx.count("selectors_built_" + how)
+    if how == "tournament":
+        return ops.TournamentSelector(prm)
+    if how == "tournament_eps_comparator":
+        return ops.TournamentSelector(prm, dominance=ops.EpsilonDominance, epsilons=[r.choice([0.1, 0.5, 1e-3])] * r.randint(1, 3))
+    if how == "tournament_eps_kw":
+        return ops.TournamentSelector(prm, epsilons=[0.1, 0.1])
+    if how == "dummy":
+        return ops.DummySelector(prm)
+    return ops.CopySelector(prm)
 
 
 def judge(ctx, costs, inds, tag, extra=None):
@@ -85,7 +101,7 @@ def cases(ctx):
 
 
 def run_case(ctx, name, params):
-    sel = _selector()
+    sel = _selector(ctx, (name, repr(sorted(params.items()))))
     if name == "tiny_exhaustive":
         vecs = [list(map(float, t)) + [mk] for t in itertools.product((0, 1, 2), repeat=2) for mk in (0, True)]
         size = params["size"]
